@@ -157,6 +157,15 @@ Constructed(c) == Val("L", c.lab, " each month", c.n)
 ASSUME \A c \in ConstructCases : WellFormed(Constructed(c))
 ASSUME Emit => \A c \in ConstructCases : PrintT(ToJson([op |-> "Construct", x |-> c, y |-> c, r |-> Constructed(c), mayRefuse |-> FALSE]))
 
+\* a series may be one month long (a one-month horizon, a slice x[k:k+1]): its total, its smallest and its largest month are the
+\* single value with the plain label, its month 0 is that value "per month", its running total is the series itself
+OneMonth(l, n) == Val("L", l, " each month", [i \in 1..3 |-> <<n[i]>>])
+OneMonthResult(op, l, n) == CASE op \in {"Sum1", "MinAll1", "MaxAll1"} -> Val("S", l, "", n)
+                              [] op = "GetMonth0" -> Val("S", l, " per month", n)
+                              [] op = "Running1" -> OneMonth(l, n)
+ASSUME Emit => \A l \in Bases, n \in ScalarNums, op \in {"Sum1", "MinAll1", "MaxAll1", "GetMonth0", "Running1"} :
+                 PrintT(ToJson([op |-> op, x |-> OneMonth(l, n), y |-> OneMonth(l, n), r |-> OneMonthResult(op, l, n), mayRefuse |-> FALSE]))
+
 \* ------------------------------------------------------------------ machine
 Init == a \in Universe /\ b \in Universe /\ depth = 0
 
